@@ -282,14 +282,15 @@ class Problem:
             V, w = nfs(a[:-1]), a[-1]
             out = 0.
             for t, P in tp:
-                fn = getattr(t, which, None) if which != "res" else t.res
-                if fn is None:
-                    fn = t.res
+                fn = getattr(t, which, None) or t.res
                 out = out + fn(U, V, w, P)
             return np.abs(out) if absolute else out
         return self._skfem.LinearForm(lf).assemble(self.basis, **self.kw)
 
     def jac_hand(self, x):
+        return self.bilinear(x).assemble(self.basis, **self.kw)
+
+    def bilinear(self, x):
         U = self.fields(x)
         tp = self._tp
         n = self.n
@@ -300,7 +301,7 @@ class Problem:
             for t, P in tp:
                 out = out + t.jac(U, D, V, w, P)
             return out
-        return self._skfem.BilinearForm(bf).assemble(self.basis, **self.kw)
+        return self._skfem.BilinearForm(bf)
 
     def jac_fd(self, x, which="res"):
         """Dense 4th-order central differences of the reference residual."""
@@ -621,16 +622,14 @@ def fam_directed(ctx, k):
         Je, re_ = Jc.todefault(), rc.todefault()
         ok = (np.abs(Je.toarray() - J.toarray()).max() <= 1e-13 * max(np.abs(J.toarray()).max(), 1e-300)
               and np.abs(re_ - r).max() <= 1e-13 * max(np.abs(r).max(), 1e-300))
-        # local blocks: (nel, Nbfun, Nbfun) reassembled by hand from the COO triplets
+        # local blocks: same layout and numbers as the elemental matrices of the ordinary BilinearForm of the
+        # hand-linearised density.  Pitfall: COOData.tolocal()[c, j, i] is (test i, trial j) for *every* form of
+        # the library, so reassembling with [c, i, j] is an oracle error, not a finding.
         loc = Jc.tolocal()
         ok = ok and loc.shape == (basis.nelems, basis.Nbfun, basis.Nbfun)
-        if ok:
-            R = np.zeros((N, N))
-            ed = np.asarray(basis.element_dofs)
-            for i in range(basis.Nbfun):
-                for j in range(basis.Nbfun):
-                    np.add.at(R, (ed[i], ed[j]), loc[:, i, j])
-            ok = np.abs(R - J.toarray()).max() <= 1e-12 * max(np.abs(R).max(), 1e-300)
+        if ok and all(t.jac is not None for t in terms):
+            ref = prob.bilinear(x).elemental(basis, **kw).tolocal()
+            ok = ref.shape == loc.shape and np.abs(ref - loc).max() <= RT_HAND * max(np.abs(ref).max(), 1e-300)
     ctx.check("elemental-equals-assemble", ok, mech="elemental-differs", terms=names, **tag)
     a = rng.standard_normal((2, 3, 4))
     out = JHm.dot(a, a)
